@@ -44,17 +44,8 @@ fn mk_node(slaac: bool, seed: u64) -> Node {
         a.push(IpCidr::new(IpAddress::v4(10, 0, 0, 1), 24)).unwrap();
         a.push(IpCidr::new(IpAddress::Ipv6(own_ll()), 64)).unwrap();
     });
-    let storage: &'static mut [SocketStorage<'static>] = Box::leak(Box::new([
-        SocketStorage::EMPTY,
-        SocketStorage::EMPTY,
-        SocketStorage::EMPTY,
-        SocketStorage::EMPTY,
-        SocketStorage::EMPTY,
-        SocketStorage::EMPTY,
-        SocketStorage::EMPTY,
-        SocketStorage::EMPTY,
-    ]));
-    Node { iface, dev, sockets: SocketSet::new(&mut storage[..]), kinds: vec![], started: vec![], npolls: vec![], handles: vec![] }
+    let storage: Vec<SocketStorage<'static>> = Vec::new();
+    Node { iface, dev, sockets: SocketSet::new(storage), kinds: vec![], started: vec![], npolls: vec![], handles: vec![] }
 }
 
 fn add_sock(n: &mut Node, kind: u32, idx: usize) {
@@ -70,8 +61,8 @@ fn add_sock(n: &mut Node, kind: u32, idx: usize) {
             n.sockets.add(udp::Socket::new(rx, tx))
         }
         2 => {
-            let q: &'static mut [Option<dns::DnsQuery>] = Box::leak(Box::new([None, None]));
-            n.sockets.add(dns::Socket::new(&[IpAddress::v4(10, 0, 0, 53)], &mut q[..]))
+            let q: Vec<Option<dns::DnsQuery>> = vec![None, None];
+            n.sockets.add(dns::Socket::new(&[IpAddress::v4(10, 0, 0, 53)], q))
         }
         _ => n.sockets.add(dhcpv4::Socket::new()),
     };
